@@ -180,7 +180,7 @@ PROPS["C03"] = {
     "harnesses": [
         H("h_c03_content_kernel", {"N": 3}, {"N": 5}, shards={"quick": shard_choose("len", 4), "thorough": shard_choose("len", 6)}),
         H("h_c03_tags", {"PIECES": 3}, {"PIECES": 4}, shards={"quick": shard_product(("fragment", 2), ("k0", 7)), "thorough": shard_product(("fragment", 2), ("k0", 7), ("k1", 7))}),
-        H("h_c03_rejects", shards={"quick": shard_choose("k", 13), "thorough": shard_choose("k", 13)}),
+        H("h_c03_rejects", shards={"quick": shard_choose("k", 17), "thorough": shard_choose("k", 17)}),
         H("h_c03_fragment_scope", shards={"quick": shard_choose("shape", 3), "thorough": shard_choose("shape", 3)}),
         H("h_c03_charref_value", {"DIGITS": 5}, {"DIGITS": 7}, shards={"quick": CHARREF_SHARDS(5), "thorough": CHARREF_SHARDS(7)}),
         H("h_c03_total", {"N": 2}, {"N": 3}, shards={"quick": shard_product(("pre", 8), ("fragment", 2)), "thorough": shard_product(("pre", 8), ("fragment", 2))}),
